@@ -32,13 +32,13 @@ CLAIMED = {
    "Proof of function contracts: PopulateGraphFromSummary adds, for every listed pair (i -> argument k, i -> result j) of a user specification, exactly that edge in both directions and nothing for positions outside the signature (addParamEdgeByPos / addReturnEdgeByPos, shared with C09); ResolveCallee returns ONLY the interface contract's summarised function (Type InterfaceContract) when contracts are consulted and the method key has a specification, before looking at the call graph or the implementations; LoadExternalContractSummary returns the function specification stored under the callee's full name (and nil when there is none). That the linked graph is then used unchanged by the traversals, and that function bodies with a specification are never summarised (ShouldBuildSummary with a pkg-filter), is not under contract.",
    "Trusted: as C05; assumed (interface-method contracts) Optional.ValueOr/IsSome/Value are pure; lang.InstrMethodKey pure."),
  "C12": ("DESIGN.md 4/C12",
-   "Proof of function contracts: CallGraphReachable returns a set that contains every entry point selected by findCallgraphEntryPoints and is CLOSED under call-graph edges (worklist loop with inductive invariant: an edge out of a reachable function is already followed or its source node is still on the worklist), for every well-formed call graph; ResolveCallee returns the static callee when there is one and otherwise, when contracts are not consulted, EVERY callee of a call-graph edge of the enclosing function at this call site. That the call graph built by the vendored pointer analysis contains every run-time call (C11) is not decided.",
-   "Trusted: as C05; precondition cgwf (x/tools callgraph invariant: Nodes[f].Func == f, edges point at canonical nodes) is stated, not proved; Optional accessors assumed pure."),
+   "Proof of function contracts: CallGraphReachable returns a set that contains every entry point selected by findCallgraphEntryPoints and is CLOSED under call-graph edges (worklist loop with inductive invariant: an edge out of a reachable function is already followed or its source node is still on the worklist), for every well-formed call graph; ResolveCallee returns the static callee when there is one and otherwise, when contracts are not consulted, EVERY callee of a call-graph edge of the enclosing function at this call site; in the vendored pointer analysis the constraint generators genInvoke / genDynamicCall / genStaticCall copy argument k of a call, for every k, to the position of parameter k in the flattened parameter block (base + sum of the flattened widths of the parameters before it, modulo 2^32; receiver first for static calls) -- the layout the dynamic-call rules of the solver rely on. That the call graph built by the vendored pointer analysis contains every run-time call (C11) is not decided.",
+   "Trusted: as C05; precondition cgwf (x/tools callgraph invariant: Nodes[f].Func == f, edges point at canonical nodes) is stated, not proved; Optional accessors assumed pure; analysis.sizeof assumed a pure function of the type (flatten memoises)."),
  "C13": ("DESIGN.md 4/C13",
    "Proof of function contracts (thin): taint.Visitor.checkEscape reports (addNewEscape) every instruction of the visited node's mark map -- iterated in arbitrary order -- that is not a call and whose entry in the context's InstructionLocality is a non-nil rationale (not classified thread-local), for an arbitrary such instruction; addNewEscape records the pair in Flows.Escapes (the map whose non-emptiness makes the tool exit with failure) whenever the source node has an instruction; raiseAlarm and the logger do not touch the locality maps (frames). Together with C14 (instructionLocality never calls an unknown or shared access local). Not under contract: that manageEscapeContexts computes a context for every visited function (missing contexts are reported as errors by the code, not proved), context propagation across calls/closures, and the soundness of the escape graphs (C15 core only).",
    "Trusted: as C05; assumed deps contract log.Logger.Printf modifies nothing; dataflow.Instr pure."),
  "C14": ("DESIGN.md 4/C14",
-   "Proof of function contract: escape.instructionLocality returns, for every memory-accessing instruction kind (store, load through any pointer type incl. named ones, channel receive/send, map update/lookup/range/next, type assertion, select), exactly the verdict of derefsAreLocal on the node of the accessed operand, and never classifies an unknown instruction kind as local; EscapeGraph.nodes is immutable after construction (checked frame scan). Soundness of the escape graph w.r.t. executions and schedules is not proved.",
+   "Proof of function contract: escape.instructionLocality returns, for every memory-accessing instruction kind (store, load through any pointer type incl. named ones, channel receive/send, map update/lookup/range/next, type assertion, select), exactly the verdict of derefsAreLocal on the node of the accessed operand, and never classifies an unknown instruction kind as local; EscapeGraph.nodes is immutable after construction (checked frame scan). transferFunction gives every memory-sharing instruction kind its effect (allocation edge, StoreField / LoadField for pointer-like stores, loads, sends, map updates and lookups, WeakAssign for interface changes; a go statement and a panic go through CallUnknown, and the slice a go statement hands to CallUnknown holds the node of EVERY escape-tracked operand at its position); CallUnknown leaves every pointee of every argument Leaked and lowers no status. Soundness of the escape graph w.r.t. executions and schedules is not proved.",
    "Trusted: as C05; assumed contract of NodeGroup.ValueNode (returns the node of the value). Resolve (call-site context) maps the receiver and every nillable argument onto the callee parameter of the matching position (invoke mode shifted by one); known finding 5.12: by-value struct arguments holding pointers are not mapped."),
   "C15": ("DESIGN.md 4/C15",
    "Proof of function contracts: the escape-graph operations are extensive (they never lower a status nor remove a node or edge) and Merge is an upper bound: AddNode adds exactly the missing node with its intrinsic status and keeps the graph well formed; computeEdgeClosure propagates the source's status to the target, never lowers a status, keeps the node set, leaves edges untouched and CLOSES the graph again (every edge that was closed before, and the edge a->b, is closed afterwards; worklist invariant over a map iterated in arbitrary order); AddEdge adds the edge, closes it and keeps closed edges closed; MergeNodeStatus raises n to at least s and keeps closed edges closed; Edges lists only edges of the graph; Merge(g, h) leaves every node of h at least as escaped in g as in h and lowers nothing in g (for disjoint well-formed graphs; object-level frames of all operations proved); LessEqual answers true only if the statuses are pointwise ordered; in EscapeGraph.Call (instantiation of a callee summary, all callees and local closures havocked) the two status tests of one worklist step are upward closed -- load nodes are brought over for every representative known to pre above Local (or unknown to pre and not Local in g), and a Leaked callee node always leaks its representative -- a single-run sufficient condition for monotonicity in the caller's statuses. Idempotence/commutativity/associativity of Merge as graph equalities, the edge part of LessEqual (bit masks) and monotonicity of the ~40 transfer cases and of Call in the EDGES of its inputs are not proved.",
